@@ -52,6 +52,7 @@ type OptSpec struct {
 	Cookie         *CookieSpec `json:"cookie,omitempty"`
 	Cors           *CorsSpec   `json:"cors,omitempty"`
 	AllowRequest   string      `json:"allowRequest,omitempty"` // "", "ok", "deny:<text>", "deny-origin:<origin>"
+	AllowSlowMs    int         `json:"allowSlowMs,omitempty"`  // the allow-request hook takes that long to decide (a lookup in a database)
 	FailMiddleware bool        `json:"failMw,omitempty"`
 }
 
@@ -258,12 +259,18 @@ func (o *OptSpec) build(w *World) *config.ServerOptions {
 	if o.Cors != nil {
 		opts.SetCors(o.Cors.build())
 	}
+	slow := func() {
+		if o.AllowSlowMs > 0 {
+			w.probe("slow_allow_request_hook")
+			simrt.Sleep(time.Duration(o.AllowSlowMs) * time.Millisecond)
+		}
+	}
 	switch {
 	case o.AllowRequest == "ok":
-		opts.SetAllowRequest(func(*types.HttpContext) error { w.probe("allow_request_called"); return nil })
+		opts.SetAllowRequest(func(*types.HttpContext) error { w.probe("allow_request_called"); slow(); return nil })
 	case strings.HasPrefix(o.AllowRequest, "deny:"):
 		txt := strings.TrimPrefix(o.AllowRequest, "deny:")
-		opts.SetAllowRequest(func(*types.HttpContext) error { w.probe("allow_request_called"); return fmt.Errorf("%s", txt) })
+		opts.SetAllowRequest(func(*types.HttpContext) error { w.probe("allow_request_called"); slow(); return fmt.Errorf("%s", txt) })
 	case strings.HasPrefix(o.AllowRequest, "deny-origin:"):
 		bad := strings.TrimPrefix(o.AllowRequest, "deny-origin:")
 		opts.SetAllowRequest(func(c *types.HttpContext) error {
